@@ -46,6 +46,13 @@ def settings_roundtrip(ctx, rng, with_codes=False):
             want[dec.name] = (en, tol, ftol)
         url = safe_url(rng)
         protocols.config.database_url = url
+        # the application reads settings through protocols.<Name> (before and after a reload)
+        by_attr = rng.sample(sorted(want), min(12, len(want)))
+        for nm in by_attr:
+            try:
+                getattr(protocols, nm).enabled
+            except AttributeError:
+                pass
         saved = []
         if with_codes:
             ps = protoinfo.all_protocols()
@@ -58,6 +65,14 @@ def settings_roundtrip(ctx, rng, with_codes=False):
                     saved.append((p['name'], c.name, a))
                 except Exception:  # noqa
                     pass
+        # the file usually exists already: an older, slightly longer configuration was saved to and loaded from this path before
+        try:
+            protocols.config.database_url = url + 'x' * rng.randint(1, 16)
+            protocols.config.save(path)
+            Config(path)
+        except Exception:  # noqa
+            pass
+        protocols.config.database_url = url
         try:
             protocols.config.save(path)
         except Exception as e:  # noqa
@@ -72,6 +87,18 @@ def settings_roundtrip(ctx, rng, with_codes=False):
             if dec.name in want and (dec.enabled, dec.tolerance, dec.frequency_tolerance) != want[dec.name]:
                 problems.append(('setting changed', dict(protocol=dec.name, want=want[dec.name],
                                                          got=(dec.enabled, dec.tolerance, dec.frequency_tolerance))))
+                break
+        for nm in by_attr:
+            try:
+                dec = getattr(protocols, nm)
+            except AttributeError:
+                continue
+            if (dec.enabled, dec.tolerance, dec.frequency_tolerance) != want[nm]:
+                problems.append(('setting read through protocols.<Name> differs from the saved one',
+                                 dict(protocol=nm, want=want[nm], got=(dec.enabled, dec.tolerance, dec.frequency_tolerance))))
+                break
+            if not any(dec is x for x in protocols):
+                problems.append(('protocols.<Name> is not a decoder of the loaded set', dict(protocol=nm)))
                 break
         if protocols.config.database_url != url:
             problems.append(('database_url changed', dict(url=url, got=protocols.config.database_url)))
